@@ -287,6 +287,9 @@ func c04PartA(r *core.Run, agentBin string, md *fakes.Metadata) {
 			}
 			defer agent.Kill()
 			for h := range ch {
+				if r.Violations() >= 10 {
+					continue // refuted already: the remaining histories would only add witnesses (and sit out their waits)
+				}
 				if !agent.Alive() {
 					judgeProcs(r, true, agent)
 					return
